@@ -216,6 +216,9 @@ def run(ctx):
             X = np.abs(X)
         if metric in ("cosine", "hellinger", "jaccard") and sh in ("one-feature",):
             metric = "euclidean"
+        if ini == "pca" and sparse and X.shape[1] < 2:
+            ctx.skip("init='pca' on sparse data with a single feature: TruncatedSVD requires at least 2 (outside 'valid configuration')")
+            continue
         if ini == "pca" and (X.shape[1] < nc):
             ctx.skip("init='pca' with fewer features than components: rejected by scikit-learn (outside 'valid configuration')")
             continue
